@@ -594,7 +594,7 @@ func Run(r *vk.Run) {
 	r.Rule = fmt.Sprintf("every sequence of fetch outcomes of length <= %d over {not found, from the future, listing error, error on chunk 0/1/2} scripted for a DA height before its real contents are served, for start heights {0,1,17}; DA heights hold the genuine header and signed-data blobs of real chains (shuffled, several per height, repeated at other heights) mixed with junk (truncations at every length class, bit flips, absurd varint lengths, wrong message types, empty, random, concatenations), one height with 230-250 ids (three fetch chunks); the real RetrieveLoop runs in child processes, the harness is the consumer of its events. Oracle on the DA call log: start height, advance only after success / nothing-here, retry the same height otherwise; every genuine blob at a successfully examined height is emitted, nothing else is. non-trivial = junk present and at least one non-success outcome; distinct by (start, outcomes, layout)", maxLen)
 	r.Assume("the 100 ms retry pause of the scan is real time; a scan that does not reach the DA head within 90 s although every DA call returns at once is judged stalled")
 	cases := buildCases(r)
-	r.SetExhaustive(true)
+	// (not marked exhaustive: the fault dimension is enumerated completely, the contents are sampled)
 	shards := 14
 	results := r.RunShards("c09", shards, shards, 40*time.Minute)
 	for _, res := range results {
